@@ -6,3 +6,5 @@ import EbisimProofs.Props.C17
 #print axioms C17.abundanceAtTime_spec
 #print axioms C17.abundanceOfCs_spec
 #print axioms C17.csTimes_in_domain
+#print axioms C17.getResult_of_mem
+#print axioms C17.tables_consistent
